@@ -109,10 +109,14 @@ void check_attrs(vf::Ctx &c, const std::string &where, const M &real, const Attr
       c.fail("C04:attr-unexpected:" + where, who + ": attribute '" + vfq::printable(kv.first, 24) + "' = " + show(kv.second) + " was never recorded (before End); expected " + show_attrs(want));
 }
 std::string sv(nostd::string_view v) { return std::string(v.data(), v.size()); }
+// a string that still reads as the scribble pattern was not copied: the SDK kept the caller's buffer
+std::string retained(const std::string &got, const std::string &want) {
+  return !got.empty() && got.size() == want.size() && got.find_first_not_of('#') == std::string::npos ? ":caller-buffer-retained" : "";
+}
 
 void check_span(vf::Ctx &c, const std::string &who, const sdktr::SpanData &d, const Model &m, const Fixture &fx, const tr::SpanContext &ctx) {
   auto q = [](const std::string &s) { return "'" + vfq::printable(s, 40) + "'"; };
-  CK(sv(d.GetName()) == m.name, "C04:name", who + ": name is " + q(sv(d.GetName())) + ", expected " + q(m.name));
+  CK(sv(d.GetName()) == m.name, "C04:name" + retained(sv(d.GetName()), m.name), who + ": name is " + q(sv(d.GetName())) + ", expected " + q(m.name));
   CK(d.GetSpanKind() == m.kind, "C04:kind", who + vf::sfmt(": kind is %d, expected %d", (int)d.GetSpanKind(), (int)m.kind));
   int64_t st = d.GetStartTime().time_since_epoch().count();
   CK(m.start.has(st), m.start.exact() ? "C04:start-time:explicit" : "C04:start-time:default",
@@ -126,7 +130,7 @@ void check_span(vf::Ctx &c, const std::string &who, const sdktr::SpanData &d, co
   CK(ev.size() == m.events.size(), "C04:event-count", who + vf::sfmt(": %zu events exported, %zu were added before End", ev.size(), m.events.size()));
   for (size_t i = 0; i < ev.size(); ++i) {
     std::string w = who + " event #" + std::to_string(i);
-    CK(ev[i].GetName() == m.events[i].name, "C04:event-name", w + ": name is " + q(ev[i].GetName()) + ", expected " + q(m.events[i].name) + " (call order)");
+    CK(ev[i].GetName() == m.events[i].name, "C04:event-name" + retained(ev[i].GetName(), m.events[i].name), w + ": name is " + q(ev[i].GetName()) + ", expected " + q(m.events[i].name) + " (call order)");
     int64_t t = ev[i].GetTimestamp().time_since_epoch().count();
     CK(m.events[i].ts.has(t), m.events[i].ts.exact() ? "C04:event-time:explicit" : "C04:event-time:default",
             w + vf::sfmt(": timestamp %lld not in [%lld,%lld]", (long long)t, (long long)m.events[i].ts.lo, (long long)m.events[i].ts.hi));
@@ -144,7 +148,7 @@ void check_span(vf::Ctx &c, const std::string &who, const sdktr::SpanData &d, co
   CK(d.GetStatus() == m.code, "C04:status-code", who + vf::sfmt(": status code %d, the last SetStatus before End gave %d", (int)d.GetStatus(), (int)m.code));
   // a description is only meaningful together with the Error code (specification); with other codes it is not compared
   if (m.code == tr::StatusCode::kError)
-    CK(sv(d.GetDescription()) == m.desc, "C04:status-description", who + ": status description is " + q(sv(d.GetDescription())) + ", expected " + q(m.desc));
+    CK(sv(d.GetDescription()) == m.desc, "C04:status-description" + retained(sv(d.GetDescription()), m.desc), who + ": status description is " + q(sv(d.GetDescription())) + ", expected " + q(m.desc));
   // identity is the span's own context
   CK(d.GetSpanContext().trace_id() == ctx.trace_id() && d.GetSpanContext().span_id() == ctx.span_id() && d.GetTraceId() == ctx.trace_id() && d.GetSpanId() == ctx.span_id(),
           "C04:identity", who + ": exported context " + show(d.GetSpanContext()) + " differs from Span::GetContext() " + show(ctx));
